@@ -12,6 +12,8 @@ var HostileSizes = []string{
 	"0", "1", "65535", "100000", "2147483648", "4294967295", "4294967296", "18446744073709551615", "18446744073709551616",
 	"99999999999999999999999999", "-1", "-0", "+1", "1..0", "0..30000", "..30000", "30000..", "..", "...", "1...2", "1..2..3", "",
 	" ", "0x10", "1e3", "1.5", "a", "[", "]", "1 2", "..-1", "٣", "\x00",
+	// the edges of the signed 64-bit range (the width of Go's int): index arithmetic on a hint overflows here first
+	"9223372036854775806", "9223372036854775807", "9223372036854775808", "..9223372036854775807", "0..9223372036854775807", "0009223372036854775807",
 }
 
 // Inserts are byte strings dropped at structural positions: NUL, multi-byte runes (valid and
